@@ -64,14 +64,6 @@ Fixpoint d_uav (x : sexp) : option uav :=
   | _ => None
   end.
 Definition d_ext : sexp -> option ext := d_list (d_pair d_str d_ostr).
-(* the fragment as the parser sees it: optionally wrapped in <Value xmlns=Types> (include_xmlns = False) *)
-Definition decode_text (E : ext) (wrapped : bool) (s : str) : res uav :=
-  match xparse s with
-  | None => Err EXml
-  | Some t =>
-      let n := resolve (if wrapped then TYPES_NS else []) [] t in
-      decode E n
-  end.
 Definition run_c08 (cmd : str) (args : list sexp) : option sexp :=
   if str_eqb cmd (lit "c08_encode") then
     match args with [b; v] => obind (d_bool b) (fun b => omap (fun v => if encodable v then e_str (encode b v) else e_err EOther) (d_uav v)) | _ => None end
